@@ -293,8 +293,12 @@ def spec_forward_barrier(row, weak=False):
         if ("ctx", "root_needs_trace") in diff(row, out):
             probs.append("root flag changed")
         if pre["phase"] != "Mark":
-            if diff(row, out):
-                probs.append("barrier outside the mark phase changed state: %s" % (diff(row, out),))
+            dd = diff(row, out)
+            if dd:
+                # a weak mark (White -> WhiteWeak) outside the mark phase harms only the weak-pointer clauses
+                # (upgrade refuses a reachable target during the sweep; a shell is kept one cycle longer)
+                only_weak_mark = weak and all(k[0] == "obj" and k[2] == "colour" and v == ("W", "WW") for k, v in dd.items())
+                probs.append("%sbarrier outside the mark phase changed state: %s" % ("[overmark] " if only_weak_mark else "", dd))
             continue
         c_post = _post_colour(out, 2)
         needs = pre["parent"] in ("None", "B") or (pre["parent"] == "alias" and pre["C"] == "B")
